@@ -4,6 +4,8 @@
 
 package gossip
 
+//@ import version "github.com/synnaxlabs/x/version"
+
 //@ spec func wfDigests(d node.Digests) bool = forall k node.Key :: __in(d, k) ==> d[k].Key == k
 
 //@ # per-member decisions of the exchange, as functions of "do I have a record / its heartbeat"
